@@ -15,14 +15,14 @@ type finding struct {
 
 // kstate is the oracle's view of one key in one history.
 type kstate struct {
-	w winState // the specification's state
+	w dual // the specification's state (two views of time, see spec.go)
 	// doc: second copy of the state, alive from the first request on whose handler RETURNED an
 	// error under a skip option, once the history has established (errMode) that the middleware
 	// judges such a request by the status at the moment the handler returns, not by the status
 	// the client receives as documented. w then follows the middleware so that it keeps judging
 	// everything else; doc keeps the documented counting. Admission decisions are judged against
 	// doc as well, and a disagreement that only doc sees is attributed to that root cause.
-	doc      *winState
+	doc      *dual
 	dead     bool // no longer judged: a violation was reported, or nothing can be attributed any more
 	violated bool
 	// Input class of a disagreement: did a refund (SkipFailedRequests / SkipSuccessfulRequests)
@@ -30,6 +30,8 @@ type kstate struct {
 	// surface many requests later, and two such leftovers can cancel in one header and show in
 	// the next, so anything finer than "after a refund" would not be a stable class.
 	hadRefund bool
+	hadLate   bool // ... and one of them came after the window of its hit had ended (slow handler)
+	hadGap    bool // a whole window passed without a request on this key (coarse view)
 	lastLate  bool // the previous request was refunded after the window of its hit had ended
 	div       *finding
 	divClass  string
@@ -122,12 +124,13 @@ func judge(cfg tcfg, steps []tstep, obs []tobs) *judgement {
 			useMax = cfg.Max
 		}
 		limitOpen := limitMode == unknown && maxReq != cfg.Max
-		hadState := ks.w.exp != 0
-		oldExp := ks.w.exp
-		v := ks.w.hit(a, o.TS)
-		var vDoc verdict
+		hadState := ks.w.s[0].exp != 0
+		oldExp := ks.w.s[0].exp
+		x := ks.w.hit(a, o.T)
+		v := x.v[0] // the coarse view, for messages and input classes
+		var xDoc dverdict
 		if ks.doc != nil {
-			vDoc = ks.doc.hit(a, o.TS)
+			xDoc = ks.doc.hit(a, o.T)
 		}
 		entered := o.Entered > 0
 		final, atReturn := modeStatus(st.Mode)
@@ -137,17 +140,22 @@ func judge(cfg tcfg, steps []tstep, obs []tobs) *judgement {
 		switch {
 		case ks.div != nil:
 			class = ks.divClass // an earlier header divergence on this key names the root cause
+		case ks.hadLate:
+			class = "after-late-refund"
 		case ks.hadRefund:
 			class = "after-refund"
-		case v.gap:
+		case v.gap || ks.hadGap:
 			class = "idle-window"
+		}
+		if v.gap {
+			ks.hadGap = true
 		}
 		clean := class == ""
 		hint := ""
 		if ks.lastLate {
 			hint = " [the previous request on this key was refunded after the window of its hit had ended]"
 		}
-		trunc, real := v.admits(useMax)
+		trunc, real := x.admits(useMax)
 		got, gotErr := strconv.Atoi(o.Remaining)
 
 		// ---- which status do the skip options look at?
@@ -160,13 +168,13 @@ func judge(cfg tcfg, steps []tstep, obs []tobs) *judgement {
 			if errMode == unknown {
 				// X-RateLimit-Remaining of this very response tells (it is the budget left after
 				// the refund, if any)
-				d := useMax - v.rate + b2i[refundDoc]
-				m := useMax - v.rate + b2i[!refundDoc]
+				d := gotErr == nil && x.remainingOK(got, useMax, refundDoc)
+				m := gotErr == nil && x.remainingOK(got, useMax, !refundDoc)
 				switch {
-				case !clean || limitOpen || !trunc || gotErr != nil || !v.exact || (got != d && got != m):
+				case !clean || limitOpen || !trunc || !x.exact() || d == m:
 					drop()
 					continue
-				case got == d:
+				case d:
 					errMode = asDocumented
 				default:
 					errMode = otherwise
@@ -200,7 +208,7 @@ func judge(cfg tcfg, steps []tstep, obs []tobs) *judgement {
 		// limitSettles: the decision disagrees with MaxFunc(c) and agrees with cfg.Max
 		limitSettles := false
 		if limitOpen {
-			altTrunc, altReal := v.admits(cfg.Max)
+			altTrunc, altReal := x.admits(cfg.Max)
 			limitSettles = (entered && !trunc && altTrunc) || (!entered && real && !altReal)
 		}
 		switch {
@@ -213,34 +221,35 @@ func judge(cfg tcfg, steps []tstep, obs []tobs) *judgement {
 					map[bool]string{true: "admitted", false: "rejected"}[entered], v.rate, maxReq, cfg.Max))
 			limitMode, limitOpen = otherwise, false
 			useMax = cfg.Max
-			trunc, real = v.admits(useMax)
-		case entered && !trunc && !v.weakAdmits(useMax):
+			trunc, real = x.admits(useMax)
+		case entered && !trunc && !x.weakAdmits(useMax):
 			add(i, sig("over-admit", class),
 				fmt.Sprintf("protected handler entered although the window is full: rate %d (hits prev=%d curr=%d, resets in %ds) > limit %d; counting only admitted requests the rate is still %d%s",
-					v.rate, ks.w.prev, ks.w.curr, v.resetIn, useMax, v.weakRate, hint))
+					v.rate, ks.w.s[0].prev, ks.w.s[0].curr, v.resetIn, useMax, v.weakRate, hint))
 			violated = true
 		case entered && !trunc:
 			j.Debatable++
 		case !entered && real:
 			add(i, sig("reject-with-budget", class),
 				fmt.Sprintf("rejected (status %d) although budget remains: rate %d (hits prev=%d curr=%d, resets in %ds) <= limit %d",
-					o.Status, v.rate, ks.w.prev, ks.w.curr, v.resetIn, useMax))
+					o.Status, v.rate, ks.w.s[0].prev, ks.w.s[0].curr, v.resetIn, useMax))
 			violated = true
 		}
 		// the same decision against the documented counting of returned errors; only reached when
 		// the state that follows the implementation has nothing to object
 		if ks.doc != nil && !violated {
-			dTrunc, dReal := vDoc.admits(useMax)
+			dTrunc, dReal := xDoc.admits(useMax)
+			vDoc := xDoc.v[0]
 			switch {
-			case entered && trunc && !dTrunc && !vDoc.weakAdmits(useMax):
+			case entered && trunc && !dTrunc && !xDoc.weakAdmits(useMax):
 				add(i, "over-admit|"+skipOpt+"|handler-returned-error",
 					fmt.Sprintf("protected handler entered although the window is full when requests answered with an error status are counted as documented: rate %d (hits prev=%d curr=%d) > limit %d; the middleware's count is %d",
-						vDoc.rate, ks.doc.prev, ks.doc.curr, useMax, v.rate))
+						vDoc.rate, ks.doc.s[0].prev, ks.doc.s[0].curr, useMax, v.rate))
 				ks.doc = nil
 			case !entered && !real && dReal:
 				add(i, "reject-with-budget|"+skipOpt+"|handler-returned-error",
 					fmt.Sprintf("rejected (status %d) although budget remains when requests answered with an error status are not counted as documented: rate %d (hits prev=%d curr=%d) <= limit %d; the middleware's count is %d",
-						o.Status, vDoc.rate, ks.doc.prev, ks.doc.curr, useMax, v.rate))
+						o.Status, vDoc.rate, ks.doc.s[0].prev, ks.doc.s[0].curr, useMax, v.rate))
 				ks.doc = nil
 			}
 		}
@@ -258,20 +267,20 @@ func judge(cfg tcfg, steps []tstep, obs []tobs) *judgement {
 			// ---- remaining / reset headers: only when nothing else is in doubt for this request
 			// (a refund the specification no longer applies because the window is over leaves
 			// the meaning of "remaining" open: not judged)
-			lateRefund := refundImpl && ((!a.sliding && o.TSEnd >= v.exp) || (a.sliding && o.TSEnd >= v.exp+a.E))
+			lateRefund := refundImpl && x.late(a, &ks.w, o.TEnd)
 			if !violated && trunc && !lateRefund {
 				want := func(limit int) int { return limit - v.rate + b2i[refundImpl] }
-				matches := func(w int) bool { return gotErr == nil && (got == w || (!v.exact && got == w-1)) }
+				matches := func(limit int) bool { return gotErr == nil && x.remainingOK(got, limit, refundImpl) }
 				switch {
-				case matches(want(useMax)):
-					if limitOpen && clean && !matches(want(cfg.Max)) {
+				case matches(useMax):
+					if limitOpen && clean && !matches(cfg.Max) {
 						limitMode = asDocumented
 					}
 				case ks.div != nil:
-				case limitOpen && matches(want(cfg.Max)) && !clean:
+				case limitOpen && matches(cfg.Max) && !clean:
 					drop()
 					continue
-				case limitOpen && matches(want(cfg.Max)):
+				case limitOpen && matches(cfg.Max):
 					add(i, "limit-not-from-MaxFunc|"+cfg.algo()+"|remaining-header",
 						fmt.Sprintf("X-RateLimit-Remaining=%d = cfg.Max(%d) - rate(%d)%s; with MaxFunc(c)=%d it must be %d", got, cfg.Max, v.rate,
 							map[bool]string{true: " + 1 refunded"}[refundImpl], maxReq, want(useMax)))
@@ -279,10 +288,10 @@ func judge(cfg tcfg, steps []tstep, obs []tobs) *judgement {
 				default:
 					ks.div = &finding{Sig: sig("headers|remaining", class), Step: i,
 						What: fmt.Sprintf("step %d: X-RateLimit-Remaining=%q, specification: limit %d - rate %d (hits prev=%d curr=%d, resets in %ds)%s = %d%s",
-							i, o.Remaining, useMax, v.rate, ks.w.prev, ks.w.curr, v.resetIn, map[bool]string{true: " + 1 refunded"}[refundImpl], want(useMax), hint)}
+							i, o.Remaining, useMax, v.rate, ks.w.s[0].prev, ks.w.s[0].curr, v.resetIn, map[bool]string{true: " + 1 refunded"}[refundImpl], want(useMax), hint)}
 					ks.divClass = class
 				}
-				if o.Reset != strconv.FormatUint(v.resetIn, 10) && ks.div == nil {
+				if !x.resetOK(o.Reset) && ks.div == nil {
 					ks.div = &finding{Sig: sig("headers|reset", class), Step: i,
 						What: fmt.Sprintf("step %d: X-RateLimit-Reset=%q, the window resets in %d s", i, o.Reset, v.resetIn)}
 					ks.divClass = class
@@ -296,7 +305,7 @@ func judge(cfg tcfg, steps []tstep, obs []tobs) *judgement {
 			if o.Status != 429 {
 				add(i, sig("reject-status", ""), fmt.Sprintf("request did not reach the handler but the status is %d", o.Status))
 			}
-			if !violated && o.RetryAfter != strconv.FormatUint(v.resetIn, 10) {
+			if !violated && !x.resetOK(o.RetryAfter) {
 				add(i, sig("retry-after", class),
 					fmt.Sprintf("Retry-After=%q, the window resets in %d s (window end %d, now %d)", o.RetryAfter, v.resetIn, v.exp, o.TS))
 				violated = true
@@ -308,15 +317,15 @@ func judge(cfg tcfg, steps []tstep, obs []tobs) *judgement {
 		if errDivergent && ks.doc == nil && !violated {
 			cp := ks.w
 			ks.doc = &cp
-			vDoc = v
+			xDoc = x
 		}
 		if ks.doc != nil && refundDoc {
-			ks.doc.refund(a, o.TSEnd, vDoc.exp, true)
+			ks.doc.refund(a, o.TEnd, xDoc)
 		}
 		if refundImpl {
 			j.Refunds++
-			if !ks.w.refund(a, o.TSEnd, v.exp, true) {
-				ks.lastLate = true
+			if !ks.w.refund(a, o.TEnd, x) {
+				ks.lastLate, ks.hadLate = true, true
 			}
 			ks.hadRefund = true
 		}
